@@ -77,6 +77,12 @@ fn extra_cases(thorough: bool) -> Vec<(String, rosu_pp::Beatmap)> {
             }
         }
     }
+    // marathon maps: a hard opening (40 notes 100 ms apart) and an easy tail of 1080 notes 400 ms apart — strain lists
+    // beyond 1024 sections (how the peaks are stored is what `raw_strains` changes), one file per mode
+    for mode in 0..4u8 {
+        let spec = MapSpec { stream: (1080, 400), ..MapSpec::new(mode, (0..40u8).map(|i| vh::gen::Obj { kind: Kind::Circle, gap: 100, pos: PosK::Far, sound: 0, col: i % 4 }).collect()) };
+        v.push((format!("marathon 40 x 100 ms + 1080 x 400 ms, mode {mode}"), spec.decode()));
+    }
     let native: Vec<ModeCfg> = (0..4).map(|m| ModeCfg { src: m, dst: m }).collect();
     for mu in vh::uni::rhythm_universes(&native, 3, 3).into_iter().chain(if thorough { vh::uni::rhythm_universes_wide(&native) } else { Vec::new() }) {
         for i in 0..mu.total {
@@ -206,7 +212,7 @@ fn main() {
         return;
     }
 
-    let ctx = Ctx::from_env("C10");
+    let ctx = Ctx::from_env_caps("C10", 50, 1500);
     ctx.rule("case = grammar map (dense universe: N<=2/3 objects, gaps {0,150,1000}; long-gap universe: N<=3/4 objects, gaps {150, 7 s, 700 s} so that strains decay through the subnormal range to exact zero, first object before time zero; extra cases: the fixtures and windows of them, rhythm and 3-object motif universes, every opening of 3 / 4 rhythm groups of 5 notes over 4 spacings, two bursts separated by a silence of 7*10^6 / 1.4*10^7 ms = more than 2^14 / 2^15 strain sections, and by 10^8 / 5*10^8 ms = more than one / five days); per case the whole battery (bpm, check_suspicion verdict, difficulty, full strain vectors, gradual walks, performance, conversions to every reachable mode, 3 settings + key mods) is digested by four builds of this checker that differ only in rosu-pp's cargo features; oracle = the four digests are equal for every case; non-trivial = every case (each compares four independent executions)");
     ctx.assume("the four binaries are built from the same working tree by bin/pre_c10 (target/feat-*/release/c10)");
 
